@@ -7,14 +7,11 @@ package interceptor
 import (
 	"fmt"
 	"sort"
-	"strings"
 	"sync"
 
 	"go.temporal.io/api/workflowservice/v1"
 	"go.temporal.io/server/api/adminservice/v1"
-	"google.golang.org/protobuf/proto"
 	"google.golang.org/protobuf/reflect/protoreflect"
-	"google.golang.org/protobuf/reflect/protoregistry"
 
 	vrt "github.com/temporalio/s2s-proxy/internal/verifrt"
 )
@@ -55,156 +52,6 @@ func vfRoots() []vfRoot {
 		}
 	})
 	return vfRootList
-}
-
-// vfIsNamespaceNameField: the reference definition of "a field that carries a namespace name", by
-// protobuf descriptor (not by Go field name): a singular string field named namespace or *_namespace, and
-// NamespaceInfo.name. (*_namespace_id fields are ids, not names.)
-func vfIsNamespaceNameField(fd protoreflect.FieldDescriptor) bool {
-	if fd.Kind() != protoreflect.StringKind || fd.IsList() || fd.IsMap() {
-		return false
-	}
-	n := string(fd.Name())
-	if n == "namespace" || strings.HasSuffix(n, "_namespace") {
-		return true
-	}
-	return fd.FullName() == "temporal.api.namespace.v1.NamespaceInfo.name"
-}
-
-var vfEventTypeEnum protoreflect.EnumDescriptor
-
-func vfEventTypeFor(attrField protoreflect.FieldDescriptor) (protoreflect.EnumNumber, bool) {
-	if vfEventTypeEnum == nil {
-		et, err := protoregistry.GlobalTypes.FindEnumByName("temporal.api.enums.v1.EventType")
-		if err != nil {
-			panic(err)
-		}
-		vfEventTypeEnum = et.Descriptor()
-	}
-	n := string(attrField.Name())
-	if !strings.HasSuffix(n, "_event_attributes") {
-		return 0, false
-	}
-	name := "EVENT_TYPE_" + strings.ToUpper(strings.TrimSuffix(n, "_event_attributes"))
-	v := vfEventTypeEnum.Values().ByName(protoreflect.Name(name))
-	if v == nil {
-		return 0, false
-	}
-	return v.Number(), true
-}
-
-const vfHistoryEventName = protoreflect.FullName("temporal.api.history.v1.HistoryEvent")
-
-// vfDecorateEvent keeps HistoryEvent.event_type consistent with the attributes arm the path goes through
-// (real events always are); for paths through other fields of an event (links) it uses a type that is on
-// the skip list, the hardest case for the shortcut.
-func vfDecorateEvent(m protoreflect.Message, next protoreflect.FieldDescriptor) {
-	if m.Descriptor().FullName() != vfHistoryEventName {
-		return
-	}
-	etField := m.Descriptor().Fields().ByName("event_type")
-	if n, ok := vfEventTypeFor(next); ok {
-		m.Set(etField, protoreflect.ValueOfEnum(n))
-	} else {
-		m.Set(etField, protoreflect.ValueOfEnum(6)) // EVENT_TYPE_WORKFLOW_TASK_STARTED, skippable
-	}
-	m.Set(m.Descriptor().Fields().ByName("event_id"), protoreflect.ValueOfInt64(5))
-}
-
-// vfPadSkippableEvent puts a skippable event in front of the event that carries the path.
-func vfPadSkippableEvent(f protoreflect.FieldDescriptor) protoreflect.Message {
-	if f.Message().FullName() != vfHistoryEventName {
-		return nil
-	}
-	ev := vrt.NewMessage(f.Message())
-	ev.Set(f.Message().Fields().ByName("event_type"), protoreflect.ValueOfEnum(6))
-	ev.Set(f.Message().Fields().ByName("event_id"), protoreflect.ValueOfInt64(4))
-	return ev
-}
-
-// vfPathEventType returns the name of the event type a path goes through ("" if none).
-func vfPathEventType(p vrt.Path) string {
-	et := ""
-	for i, st := range p {
-		if st.Field.ContainingMessage().FullName() == vfHistoryEventName {
-			if n, ok := vfEventTypeFor(st.Field); ok {
-				et = string(vfEventTypeEnum.Values().ByNumber(n).Name())
-			} else if i < len(p) {
-				et = "(non-attribute field " + string(st.Field.Name()) + ")"
-			}
-		}
-	}
-	return et
-}
-
-func vfPathBlobField(p vrt.Path) string {
-	b := ""
-	for _, st := range p {
-		if st.Blob {
-			b = string(st.Field.FullName())
-		}
-	}
-	return b
-}
-
-// vfPathSignature is a root-independent description of where a path ends, for violation signatures.
-func vfPathSignature(p vrt.Path) string {
-	var parts []string
-	if b := vfPathBlobField(p); b != "" {
-		parts = append(parts, "blob="+b)
-	}
-	if et := vfPathEventType(p); et != "" {
-		parts = append(parts, "event="+et)
-	}
-	// the tail after the last HistoryEvent attribute arm (or the last 2 steps)
-	tailFrom := len(p) - 2
-	for i, st := range p {
-		if st.Field.ContainingMessage().FullName() == vfHistoryEventName {
-			tailFrom = i + 1
-		}
-	}
-	if tailFrom < 0 {
-		tailFrom = 0
-	}
-	if tailFrom > len(p)-1 {
-		tailFrom = len(p) - 1
-	}
-	var tail []string
-	for _, st := range p[tailFrom:] {
-		tail = append(tail, string(st.Field.Name()))
-	}
-	parts = append(parts, "leaf="+string(p.Leaf().ContainingMessage().Name())+"."+strings.Join(tail, "."))
-	return strings.Join(parts, "/")
-}
-
-// vfRefTranslateNames is the reference translation: every namespace-name field whose value is a key of
-// mapping gets the mapped value; returns whether any such field was found ("matched").
-func vfRefTranslateNames(m proto.Message, mapping map[string]string) (bool, error) {
-	return vrt.Visit(m.ProtoReflect(), true, func(c protoreflect.Message, fd protoreflect.FieldDescriptor) bool {
-		if !vfIsNamespaceNameField(fd) {
-			return false
-		}
-		old := c.Get(fd).String()
-		nv, ok := mapping[old]
-		if !ok {
-			return false
-		}
-		if nv != old {
-			c.Set(fd, protoreflect.ValueOfString(nv))
-		}
-		return true
-	})
-}
-
-func vfCanonEqual(a, b proto.Message) (bool, error) {
-	ca, cb := proto.Clone(a), proto.Clone(b)
-	if err := vrt.CanonicalizeBlobs(ca); err != nil {
-		return false, err
-	}
-	if err := vrt.CanonicalizeBlobs(cb); err != nil {
-		return false, err
-	}
-	return proto.Equal(ca, cb), nil
 }
 
 func vfSortedKeys[V any](m map[string]V) []string {
